@@ -45,6 +45,8 @@ pub const COMPOSE_LEAVES: &[&str] = &[
     "(\"aébc\" <~ 1..2)", "(\"aébc\" <~ 2..0)", "(\"aébc\" <~ --1..1)", "(\"aébc\" <~ 2..99)",
     "('abcd' <~ 1..2)", "('abcd' <~ 2..0)", "('abcd' <~ --1..1)", "('abcd' <~ 2..99)",
     "(:a.b.c <~ 0..1)", "(:a.b.c <~ 2..0)", "(:a.b.c <~ 1..99)",
+    // starting past the end
+    "((1 2 3 4) <~ 6..7)", "((1 <> 2 <> 3) <~ 5..5)", "(\"aébc\" <~ 5..5)", "('abcd' <~ 9..12)", "(:a.b.c <~ 4..4)",
     // reversed by more than the length of the data
     "((1 2 3 4) <~ 3..0)", "((1 <> 2 <> 3) <~ 9..0)", "(\"aébc\" <~ 3..0)", "('abcd' <~ 9..1)", "(:a.b.c <~ 5..0)",
 ];
